@@ -381,7 +381,15 @@ def check_filter_step(pva, w_rel, acc_n, with_altitude, T, dt_imu=0.02, out=None
     M = A + Nb
     E2 = expm(M * T) - np.eye(ns) - M * T
     floor = 100 * (n + 1) * eps[:, None] / hs[None, :]
-    tol = 4 * (E2 + Nb * T + 2 * curvF + varFT + (varF @ M + M @ varF) * T * T) \
+    # the kernel is a first-order scheme in the IMU step: over one step the velocity changes by a dt, which the
+    # discrete error state sees as a DV/PHI offset of size |a| dt fed back through F (measured: ~ |a| |2 Omega| dt T)
+    an0 = float(np.linalg.norm(acc_n)) + 1.0
+    PVP = np.zeros((9, 9))
+    PVP[3:6, 6:9] = 1.0
+    if not with_altitude:
+        PVP = _t23() @ PVP @ _t23().T
+    disc = dt * an0 * T * (M @ PVP)
+    tol = 4 * (E2 + Nb * T + 2 * curvF + varFT + (varF @ M + M @ varF) * T * T + disc) \
         + floor + 1e-6 * np.abs(PhiM)
     if not with_altitude:
         # the harness feeds constant body-frame readings; over T the vertical specific force then departs from the
